@@ -4,7 +4,7 @@
 (* Each state is exported as one run for the fault-injection harness.               *)
 EXTENDS Faults, Json, IOUtils
 
-Probes == ndJsonDeserialize(IOEnv.PROBES)    \* [id, arch, save, stream, allocs, doc, produced, probe]
+Probes == ndJsonDeserialize(IOEnv.PROBES)    \* [id, arch, save, stream, allocs, doc, unit, be, produced, probe]
 
 VARIABLES s, kind, k
 vars == <<s, kind, k>>
@@ -12,7 +12,7 @@ vars == <<s, kind, k>>
 KindsOf(p) == IF p.save THEN (IF p.stream THEN {"alloc", "ofailat", "othrowat"} ELSE {"alloc"})
               ELSE (IF p.stream THEN {"alloc", "failat", "throwat"} ELSE {"alloc"})
 PointsOf(p, kd) == IF kd = "alloc" THEN p.allocs ELSE IF kd \in {"failat", "throwat"} THEN Len(p.doc) ELSE p.produced
-RejectOf(p, kd) == IF kd \in {"failat", "throwat"} THEN MustRejectBelow(p.arch, p.doc) ELSE 0
+RejectOf(p, kd) == IF kd \in {"failat", "throwat"} THEN MustRejectBelow(p.arch, p.doc, p.unit, p.be) ELSE 0
 
 Init == /\ s \in 1..Len(Probes) /\ kind \in KindsOf(Probes[s]) /\ k = 0
 Next == /\ k < PointsOf(Probes[s], kind)
